@@ -43,11 +43,21 @@ def replay_behaviour(beh):
     plans, regs, nodes, scopes = [], [], [None], []  # node ids are 1-based
     nid = {}
 
+    def cur_scope(p):
+        """The plan's current scope: the one tuple-valued attribute of a Plan object, whatever its private name."""
+        v = getattr(p, "_scope", None)
+        if isinstance(v, tuple):
+            return v
+        ts = [x for x in vars(p).values() if isinstance(x, tuple)]
+        if len(ts) != 1:
+            raise common.MachineryError("cannot find the current scope on a Plan object")
+        return ts[0]
+
     def project():
         obs = {"plans": [], "regs": [], "nnodes": len(nodes) - 1}
         for p in plans:
             g = p.graph
-            obs["plans"].append({"nn": g.number_of_nodes(), "ne": g.number_of_edges(), "scope": list(p._scope),
+            obs["plans"].append({"nn": g.number_of_nodes(), "ne": g.number_of_edges(), "scope": list(cur_scope(p)),
                                  "nodes": sorted(nid.get(id(n), -1) for n in g.nodes())})
         for r in regs:
             obs["regs"].append(sorted(nid.get(id(n), -1) for n in r.keys()))
@@ -66,8 +76,8 @@ def replay_behaviour(beh):
                 p = plans[a["p"] - 1]
                 n = p.call(lambda *x: 0, *([nodes[a["x"]]] if a["x"] else []))
                 nodes.append(n); nid[id(n)] = len(nodes) - 1
-                if list(n.scope) != list(p._scope):
-                    return {"step": k, "what": "node_scope", "detail": f"{n.scope} vs {p._scope}"}
+                if list(n.scope) != list(cur_scope(p)):
+                    return {"step": k, "what": "node_scope", "detail": f"{n.scope} vs {cur_scope(p)}"}
             elif name == "lit":
                 p = plans[a["p"] - 1]
                 n = p.lit(object())
